@@ -167,6 +167,12 @@ def rules(rep, m):
     r5 = rep.rule("R-C08-5", "when a process that may itself be blocked is ended (stop), it is removed from every "
                   "waiting list and its pending events are cancelled *before* its holdings are dropped: dropping signals "
                   "the guards, and a grant made to the ending process would be lost", floor=1)
+    stop_ordering(rep, r5, m)
+
+
+def stop_ordering(rep, rule, m):
+    """Shared by C08 and C09: unwind a possibly blocked process before dropping its holdings."""
+    r5 = rule
     for f in m.funcs.values():
         cx = None
         ca_ = [c for c in walk(f.body) if c["kind"] == "CallExpr" and callee_ref(c) == "cmi_process_cancel_awaiteds"]
@@ -190,6 +196,8 @@ def rules(rep, m):
                 r5.fail()
             else:
                 r5.ok()
+
+
 
 
 def run(tier="quick"):
